@@ -245,15 +245,14 @@ def build_sim(kind):
         genbin = os.path.join(kd, "generator.bin")
         run(["go", "build", "-o", genbin, "./generator"], cwd=copy)
         reg = generate_corpus(copy, genbin, corpus_mod.CORPUS)
-        # 2. seam
+        # 2. seam (the cache-eviction hook goes in first so that its locks get the shim too)
+        shutil.copy(os.path.join(VERIF, "sim", "inject", "ytypes_buggify.go"), os.path.join(copy, "ytypes", "zz_verif_buggify.go"))
         inject_simrt(copy)
         pkgs = existing_pkgs(copy, RUNTIME_PKGS) + ["./verifcorpus/" + e["name"] for e in reg]
         args = [instr_bin(), "-dir", copy, "-sites", os.path.join(kd, "sites.json")]
         if kind == "race":
             args.append("-yield")
         run(args + pkgs, cwd=copy)
-        if kind == "race":
-            shutil.copy(os.path.join(VERIF, "sim", "inject", "ytypes_buggify.go"), os.path.join(copy, "ytypes", "zz_verif_buggify.go"))
         # 3. harness
         hd = os.path.join(copy, "verifharness")
         if os.path.exists(hd):
